@@ -982,7 +982,13 @@ where
                 self.handle_self_update(Incarnation::default(), State::Down, &mut runtime)?;
             }
 
-            if self.config.notify_down_members {
+            // Replying to a TurnUndead with another one is only useful if
+            // we came back (renewed our identity): a defunct instance
+            // answering would have both sides bounce the message forever
+            if self.config.notify_down_members
+                && (message != Message::TurnUndead
+                    || self.connection_state != ConnectionState::Undead)
+            {
                 self.send_message(src, Message::TurnUndead, runtime)?;
             }
 
